@@ -320,8 +320,23 @@ func (d *arDegenerate) registryNote() string {
 	ch := n.Chain()
 	out := ""
 	if dl, err := ch.GetFrontierMomentumStore().ComputePillarDelegations(); err == nil {
+		// the most degenerate first (the failure line is cut after a few hundred characters)
+		rank := func(pd *types.PillarDelegationDetail) int {
+			sum := big.NewInt(0)
+			for _, b := range pd.Backers {
+				sum.Add(sum, b)
+			}
+			switch {
+			case len(pd.Backers) > 0 && sum.Sign() == 0:
+				return 0
+			case len(pd.Backers) == 0:
+				return 1
+			}
+			return 2
+		}
+		sort.SliceStable(dl, func(i, j int) bool { return rank(dl[i]) < rank(dl[j]) })
 		for _, pd := range dl {
-			out += fmt.Sprintf("pillar %s producer=%s backers=[", pd.Name, addrName(pd.Producing))
+			out += fmt.Sprintf("pillar %s backers=[", pd.Name)
 			var parts []string
 			for a, b := range pd.Backers {
 				parts = append(parts, addrName(a)+":"+b.String())
